@@ -390,7 +390,7 @@ class DecisionMatrix(DiffEqualityMixin):
         """Objectives of the criteria as ``Objective`` instances."""
         return pd.Series(
             [Objective.from_alias(a) for a in self._objectives],
-            index=self._data_df.columns,
+            index=self._data_df.columns.copy(deep=True),
             name="Objectives",
             copy=True,
         )
